@@ -632,3 +632,67 @@ Qed.
 Lemma absent_only_breaks_empty_id :
   send_ids GenWhenAbsent (id_shape 1 0) 1000 2000 = (0%N, 2000%N).
 Proof. vm_compute. reflexivity. Qed.
+
+(* ====================================================================== *)
+(* 5. Receipts behind the multiplexer                                      *)
+(* ====================================================================== *)
+
+From XV Require Import C06.ModelExt C06.ProofsRx.
+
+(* with every type routed, a schedule of the routed system is a schedule of the
+   receipts system: everything proved about [rx_step true] carries over *)
+Lemma rxr_projects tr : forall s s',
+  run (rxr_step routes_all) s tr = Some s' -> run (rx_step true) s (rxr_project tr) = Some s'.
+Proof.
+  induction tr as [|l tr IH]; intros s s' R; cbn [run] in R; cbn [rxr_project].
+  - exact R.
+  - destruct (rxr_step routes_all s l) as [s1|] eqn:E; [|discriminate].
+    destruct l as [l'|ty id|ty id]; cbn [rxr_step routes_all] in E.
+    + destruct l'; try discriminate; cbn [run]; rewrite E; apply IH; exact R.
+    + cbn [run]. rewrite E. apply IH. exact R.
+    + discriminate.
+Qed.
+
+(* no receipt is lost in the multiplexer *)
+Lemma rxr_never_unrouted s ty id : rxr_step routes_all s (RUnrouted ty id) = None.
+Proof. reflexivity. Qed.
+
+(* a sender whose receipt arrives, of whatever message type, returns nil *)
+Lemma rxr_receipt_reaches_sender ty :
+  exists s, run (rxr_step routes_all) rx_init
+              [RL (XStart 1); RL (XSendOk 0); RArrive ty 1; RL XLookup; RL XNotify; RL (XRecv 0)] = Some s /\
+            map snd_code (rx_snd s) = [XCOk].
+Proof.
+  unfold rxr_step, routes_all. cbn [run]. eexists. split; [vm_compute; reflexivity|reflexivity].
+Qed.
+
+Lemma rxr_outcome_run tr s i x o :
+  run (rxr_step routes_all) rx_init tr = Some s -> nth_error (rx_snd s) i = Some x -> x_pc x = XRet o ->
+  match o with
+  | XOk => exists q, In (RNotified q (x_id x) i) (rx_hist s)
+  | XCtxErr => x_canc x = true
+  | XSendErr => True
+  end.
+Proof. intro R. exact (rx_outcome_run _ s i x o (rxr_projects tr _ _ R)). Qed.
+
+Lemma rxr_handler_progress_run tr s :
+  run (rxr_step routes_all) rx_init tr = Some s ->
+  match rx_h s with
+  | HIdle => True
+  | HRead _ _ => rx_enabled s XLookup
+  | HNotify _ _ _ => rx_enabled s XNotify
+  | HUnh _ _ => rx_enabled s XUnhandled
+  | HPanic => False
+  end.
+Proof. intro R. exact (rx_handler_progress_run _ s (rxr_projects tr _ _ R)). Qed.
+
+(* a registration that leaves a type out: the receipt of that type vanishes,
+   the sender keeps waiting and only its own context ends the call *)
+Lemma rxr_missing_type_loses_receipt :
+  exists s x, run (rxr_step routes_without_headline) rx_init
+                [RL (XStart 1); RL (XSendOk 0); RUnrouted 3 1] = Some s /\
+    nth_error (rx_snd s) 0 = Some x /\ x_pc x = XWait /\ x_tok x = false /\ rx_h s = HIdle /\ rx_hist s = [] /\
+    rxr_step routes_without_headline s (RArrive 3 1) = None /\
+    rxr_step routes_without_headline s (RL (XRecv 0)) = None /\
+    rxr_step routes_without_headline s (RL (XCtxDone 0)) = None.
+Proof. eexists. eexists. split; [vm_compute; reflexivity|]. repeat split. Qed.
